@@ -204,19 +204,21 @@ pub fn install_panic_hook() {
         } else {
             "<non-string panic payload>".to_string()
         };
-        // a panic raised inside std or a dependency: name the innermost delta function instead
-        let loc = if loc.starts_with("/rustc/") || loc.contains("/.cargo/registry/") {
-            let bt = std::backtrace::Backtrace::force_capture().to_string();
-            let frame = bt
-                .lines()
-                .filter_map(|l| l.trim().split_once(": ").map(|x| x.1.to_string()))
-                .find(|f| f.starts_with("dut::") && !f.starts_with("dut::verif_api") || f.starts_with("<dut::") || f.starts_with("delta::"));
-            match frame {
-                Some(f) => format!("fn:{}", f.split("::h").next().unwrap_or(&f)),
-                None => loc,
+        // Root-cause identity must survive unrelated edits of the same file: use the innermost
+        // delta function (from the backtrace) instead of the line number; for a panic raised
+        // inside std or a dependency this also names the delta caller.
+        let bt = std::backtrace::Backtrace::force_capture().to_string();
+        let frame = bt
+            .lines()
+            .filter_map(|l| l.trim().split_once(": ").map(|x| x.1.to_string()))
+            .find(|f| (f.starts_with("dut::") && !f.starts_with("dut::verif_api")) || f.starts_with("<dut::") || f.starts_with("delta::") || f.starts_with("<delta::"));
+        let loc = match frame {
+            Some(f) => {
+                let f = f.split("::h").next().unwrap_or(&f).to_string();
+                let file = if loc.starts_with("/rustc/") || loc.contains("/.cargo/registry/") { String::new() } else { loc.rsplit_once(':').map(|x| x.0.to_string()).unwrap_or(loc.clone()) };
+                format!("{}|fn:{}", file, f)
             }
-        } else {
-            loc
+            None => loc,
         };
         LAST_PANIC.with(|p| *p.borrow_mut() = Some((loc, msg)));
     }));
@@ -231,6 +233,13 @@ pub struct PanicInfo {
 impl PanicInfo {
     /// location with the source root stripped, e.g. `src/paint.rs:264`
     pub fn short_location(&self) -> String {
+        if let Some((file, func)) = self.location.split_once("|fn:") {
+            let file = match file.find("/src/") {
+                Some(i) => &file[i + 1..],
+                None => file,
+            };
+            return format!("{}:{}", file, func.replace("dut::", "").replace("delta::", ""));
+        }
         let l = &self.location;
         if let Some(i) = l.find("/src/") {
             // keep crate-relative path for registry crates, `src/...` for delta itself
